@@ -21,6 +21,8 @@ CHECKS = {
  "C10": ("fault_enumeration", "sampled histories; for each, the victim operation's mutating disk operations are counted and the disk is frozen before every one of them in turn (complete enumeration of crash points per victim); after each crash the directory is reopened by a fresh store and validated", SIM + "; exhaustive crash-point enumeration per sampled history at the disk seam", "4.C10"),
  "C05": ("exploration", "seeded search over descriptor variants x faulty readers (chunking, zero-byte reads, early EOF, error at offset, trailing bytes) x concurrent good/bad pushers under one digest, interleaved at lock and disk-operation granularity, with a watcher task inspecting blobs/ between operations", SIM + " with byte-stream fault seam; visibility oracle during and after the run", "4.C05"),
  "C18": ("fault_enumeration", "sampled config documents and Put/Get/Delete histories; sequential histories compared step by step with a model document and the file on disk; concurrent histories under seeded interleavings checked with porcupine against the final file; for a sampled Put/Delete every mutating disk operation of the save is a crash point (complete enumeration) after which the file must be the complete old or new document", SIM + "; model document + porcupine + exhaustive crash-point enumeration at the disk seam", "4.C18"),
+ "C15": ("exploration", "seeded search over the registry's legal freedom (page split, Link header forms, server- or client-side filtering, document size around MaxMetadataBytes), last values and callback failures; delivered items compared with the registry model's list, bytes consumed counted at the response-body seam", "deterministic simulation: real client code against a simulated registry (RoundTripper seam) whose behaviour is drawn from the seed; body-seam byte accounting", "4.C15"),
+ "C13": ("exploration", "seeded search over Repository operation histories x registry capability profiles x Repository options x Read/Seek sequences, against a stateful simulated registry that is both reference model and request validator; optionally one single-field corruption of a response, judged when the corrupted field is pinned by the request", "deterministic simulation: real client stack against a simulated registry (RoundTripper seam) with response-corruption injection; model comparison + spec validator", "4.C13"),
 }
 ids = [json.loads(l)["id"] for l in open(os.path.join(V, "properties.jsonl"))]
 checks = []
